@@ -28,7 +28,11 @@ pub fn parse_ignore(source: &Path, config: &Config) -> Result<Option<Gitignore>>
         let gifile = source.join(".gitignore");
         info!("Using .gitignore file {:?}", gifile);
         let mut builder = GitignoreBuilder::new(source);
-        builder.add(&gifile);
+        // Only a regular file is read; opening e.g. a FIFO of that
+        // name would block for ever.
+        if gifile.is_file() {
+            builder.add(&gifile);
+        }
         let ignore = builder.build()?;
         Some(ignore)
     } else {
